@@ -91,6 +91,14 @@ def run(seed=0, tier="quick", aimed=None):
                             "oracle": f"euler_advection_3d[{ft}]", "dtype": real_t.__name__, "grid": [nz, ny, nx], "err": e, "seed_case": t}}
         if len(samples) < 2:
             samples.append({"oracle": "c20", "grid": [nz, ny, nx], "dt_by_2_dx": p, "checked": cases})
+    # (c) the step the simulators hand to these kernels is the step they are asked for: passive-transport steps (scalar / vector,
+    #     non-square grids) = field + dt * flux(field) with the nominal prefactors dt/dx and nu dt/dx^2, dx = x_range/nx
+    from oracles import c01
+
+    fi, c = c01.passive_reference_steps(seed + 3, "c20passive", "c20_simulator_step_is_euler_step", reps=1 if tier == "quick" else 4)
+    cases += c
+    if fi is not None:
+        return {"ok": False, "cases": cases, "samples": samples, "failing_input": fi}
     return {"ok": True, "cases": cases, "failing_input": None, "samples": samples}
 
 
